@@ -138,6 +138,9 @@ def run_case(probe, res, toks, exp, atoms, bad_atoms, gen_name, rng, n_spell):
     texts = [("canonical", spell.canonical(toks))]
     for k in range(n_spell):
         texts.append(("layout%d" % k, spell.respell(toks, rng, trivia=True)))
+    if any(k == "endif;" for _t, k, _x in toks):
+        # END_IF without its semicolon is part of the supported language: the same library must come out
+        texts.append(("endif-semicolons-omitted", spell.respell(toks, rng, trivia=bool(n_spell), endif=True)))
     # layout-only spellings: blanks, tabs, line ends, and comments (case changes belong to C08)
     for how, text in texts:
         obs = probe.run({"op": "parse", "text": text, "file": "c01.st"})
